@@ -75,13 +75,13 @@ theorem status_active_iff (s : Store) (now : Int) :
     · cases hg : s.getCons cs.latest with
       | none =>
         simp only [z, ne_eq, not_true_eq_false, ↓reduceIte, reduceCtorEq, false_iff, not_exists, not_and]
-        intro cs' c e; cases e; intro _ e2; cases e2
+        intro cs' c e; cases e; intro _ e2; rw [hg] at e2; cases e2
       | some c =>
         by_cases e : c.ts + cs.trustingPeriod ≤ now
         · simp only [z, ne_eq, not_true_eq_false, ↓reduceIte, e, reduceCtorEq, false_iff, not_exists, not_and]
-          intro cs' c' e1; cases e1; intro _ e2; cases e2; omega
+          intro cs' c' e1; cases e1; intro _ e2; rw [hg] at e2; cases e2; omega
         · simp only [z, ne_eq, not_true_eq_false, ↓reduceIte, e, true_iff]
-          exact ⟨cs, c, rfl, z, rfl, by omega⟩
+          exact ⟨cs, c, rfl, z, hg, by omega⟩
     · simp only [ne_eq, z, not_false_eq_true, ↓reduceIte, reduceCtorEq, false_iff, not_exists, not_and]
       intro cs' c e1; cases e1; intro h; exact absurd h z
 
@@ -172,7 +172,7 @@ theorem validateMatch_ok (s s' : Store) (x : Option String) :
   | some e =>
     simp only [reduceCtorEq, iff_false]
     split
-    · intro h; exact absurd h (by decide)
+    · intro h; exact absurd (show ("panic" : String) = "ok" from h) (by decide)
     · rename_i e' _ heq
       cases heq
       exact err_ne_ok _
@@ -265,5 +265,170 @@ theorem upgradeStore_result (s : Store) (now : Int) (self : Height) (u : Upgrade
   · left
     refine ⟨by unfold upgradeStore; simp [hst], by unfold upgradeStore; simp [hst], ?_⟩
     rintro ⟨_, _, h, _⟩; exact hst h
+
+/-! ### latest height -/
+
+theorem pruneAllStore_client (s : Store) (hs : StoreInv s) (now : Int) : (pruneAllStore s now).1.client = s.client := by
+  unfold pruneAllStore
+  cases hc : s.client with
+  | none => simp [hc]
+  | some cs => exact (pruneAll_spec s hs.metaInv cs.trustingPeriod now).2.1.trans hc
+
+/-- no operation decreases a client's latest height -/
+theorem step_latest (w : World) (hw : WInv w) (op : Op) (cid : Nat) :
+    hk (w.client cid).latestHeight ≤ hk ((step w op).1.client cid).latestHeight := by
+  cases op with
+  | pruneAll c =>
+    show hk (w.client cid).latestHeight ≤ hk ((w.put c (pruneAllStore (w.client c) w.now).1).client cid).latestHeight
+    rw [client_put]
+    by_cases eq : c = cid
+    · subst eq
+      simp only [↓reduceIte]
+      unfold Store.latestHeight
+      rw [pruneAllStore_client _ (hw.stores c)]
+      exact Nat.le_refl _
+    · simp only [eq, ↓reduceIte]; exact Nat.le_refl _
+  | create cs c =>
+    rcases step_client w hw (.create cs c) trivial cid with st | e
+    · exact st.latest
+    · rw [e]; exact Nat.zero_le _
+  | update c hdr valid =>
+    rcases step_client w hw (.update c hdr valid) trivial cid with st | e
+    · exact st.latest
+    · rw [e]; exact Nat.zero_le _
+  | misbehaviour c m v1 v2 =>
+    rcases step_client w hw (.misbehaviour c m v1 v2) trivial cid with st | e
+    · exact st.latest
+    · rw [e]; exact Nat.zero_le _
+  | advance dt dh => exact Nat.le_refl _
+  | upgrade c u =>
+    rcases step_client w hw (.upgrade c u) trivial cid with st | e
+    · exact st.latest
+    · rw [e]; exact Nat.zero_le _
+  | recover a b =>
+    rcases step_client w hw (.recover a b) trivial cid with st | e
+    · exact st.latest
+    · rw [e]; exact Nat.zero_le _
+  | verifyMembership c r => exact Nat.le_refl _
+  | verifyNonMembership c r => exact Nat.le_refl _
+
+theorem run_latest (cid : Nat) : ∀ (ops : List Op) (w : World), WInv w →
+    hk (w.client cid).latestHeight ≤ hk ((run w ops).client cid).latestHeight
+  | [], _, _ => Nat.le_refl _
+  | op :: ops, w, hw =>
+    Nat.le_trans (step_latest w hw op cid) (run_latest cid ops (step w op).1 (step_winv w hw op))
+
+theorem put_same_client (w : World) (cid : Nat) (cid' : Nat) : (w.put cid (w.client cid)).client cid' = w.client cid' := by
+  rw [client_put]
+  by_cases e : cid = cid'
+  · simp [e]
+  · simp [e]
+
+/-! ### acceptance of headers and misbehaviour (C24) -/
+
+theorem err_ne_of_head (e t : String) (h : t.toList.head? ≠ some 'e') : "err:" ++ e ≠ t := by
+  intro hh
+  apply h
+  rw [← hh, String.toList_append]
+  rfl
+
+/-- `UpdateClient` accepts a header (stores it, treats it as a duplicate, or freezes on it) iff the client
+    is Active and `verifyHeader` passes; otherwise nothing is written -/
+theorem updateStore_accept_iff (s : Store) (hs : StoreInv s) (now : Int) (self : Height) (hdr : Header) (valid : Bool) :
+    (((updateStore s now self hdr valid).2 = "updated" ∨ (updateStore s now self hdr valid).2 = "frozen") ↔
+      (s.status now = .active ∧ verifyHeader s hdr valid = none)) ∧
+    (¬ (s.status now = .active ∧ verifyHeader s hdr valid = none) → (updateStore s now self hdr valid).1 = s) := by
+  by_cases hst : s.status now = .active
+  · cases hc : s.client with
+    | none => have := (status_unknown_iff s now).mpr hc; rw [this] at hst; cases hst
+    | some cs =>
+      cases hv : verifyHeader s hdr valid with
+      | some e =>
+        have key : updateStore s now self hdr valid = (s, "err:" ++ e) := by unfold updateStore; simp [hst, hc, hv]
+        rw [key]
+        refine ⟨⟨?_, fun h => by cases h.2⟩, fun _ => rfl⟩
+        rintro (h | h)
+        · exact absurd h (err_ne_of_head e _ (by decide))
+        · exact absurd h (err_ne_of_head e _ (by decide))
+      | none =>
+        refine ⟨⟨fun _ => ⟨hst, rfl⟩, fun _ => ?_⟩, fun h => absurd ⟨hst, rfl⟩ h⟩
+        rcases updateStore_cases s hs now self hdr valid with ⟨_, h | h⟩ | ⟨_, _, _, _, ⟨_, e⟩ | ⟨_, s1, _, ⟨_, e⟩ | ⟨_, e⟩⟩⟩
+        · exact absurd hst h
+        · exact absurd hv h
+        · right; rw [e]
+        · left; rw [e]
+        · left; rw [e]
+  · have key : updateStore s now self hdr valid = (s, "err:client-not-active") := by unfold updateStore; simp [hst]
+    rw [key]
+    refine ⟨⟨?_, fun h => absurd h.1 hst⟩, fun _ => rfl⟩
+    rintro (h | h)
+    · exact absurd h (by decide)
+    · exact absurd h (by decide)
+
+/-- `checkMisbehaviourHeader` passes iff … -/
+theorem checkMisbehaviourHeader_none_iff (cs : ClientState) (c : ConsState) (hdr : Header) (now : Int) (valid : Bool) :
+    checkMisbehaviourHeader cs c hdr now valid = none ↔
+      (hdr.tvals = some c.nvh ∧ hdr.commitOK = true ∧ now - c.ts < cs.trustingPeriod ∧ valid = true) := by
+  unfold checkMisbehaviourHeader checkTrustedHeader
+  cases ht : hdr.tvals with
+  | none => simp
+  | some tv =>
+    by_cases e0 : hdr.commitOK = true
+    · by_cases e1 : tv = c.nvh
+      · by_cases e2 : now - c.ts ≥ cs.trustingPeriod
+        · simp [e0, e1, e2]; omega
+        · cases valid <;> simp [e0, e1, e2] <;> omega
+      · simp [e0, e1]
+    · simp [e0]
+
+theorem verifyMisbehaviour_none_iff (cs : ClientState) (s : Store) (m : Misbehaviour) (now : Int) (v1 v2 : Bool) :
+    verifyMisbehaviour cs s m now v1 v2 = none ↔
+      ∃ c1 c2, s.getCons m.h1.trusted = some c1 ∧ s.getCons m.h2.trusted = some c2 ∧
+        checkMisbehaviourHeader cs c1 m.h1 now v1 = none ∧ checkMisbehaviourHeader cs c2 m.h2 now v2 = none := by
+  unfold verifyMisbehaviour
+  cases h1 : s.getCons m.h1.trusted with
+  | none => simp
+  | some c1 =>
+    cases h2 : s.getCons m.h2.trusted with
+    | none => simp
+    | some c2 =>
+      cases h3 : checkMisbehaviourHeader cs c1 m.h1 now v1 with
+      | some e => simp
+      | none => simp
+
+/-- a misbehaviour submission freezes the client iff … ; in every other case nothing is written -/
+theorem misbehaviourStore_frozen_iff (s : Store) (now : Int) (m : Misbehaviour) (v1 v2 : Bool) :
+    ((misbehaviourStore s now m v1 v2).2 = "frozen" ↔
+      (m.validateBasic = true ∧ s.status now = .active ∧
+        ∃ cs, s.client = some cs ∧ verifyMisbehaviour cs s m now v1 v2 = none ∧ checkMisbehaviourMsg m = true)) ∧
+    ((misbehaviourStore s now m v1 v2).2 ≠ "frozen" → (misbehaviourStore s now m v1 v2).1 = s) := by
+  by_cases hb : m.validateBasic = true
+  · by_cases hst : s.status now = .active
+    · cases hc : s.client with
+      | none => have := (status_unknown_iff s now).mpr hc; rw [this] at hst; cases hst
+      | some cs =>
+        cases hv : verifyMisbehaviour cs s m now v1 v2 with
+        | some e =>
+          have key : misbehaviourStore s now m v1 v2 = (s, "err:" ++ e) := by unfold misbehaviourStore; simp [hb, hst, hc, hv]
+          rw [key]
+          refine ⟨⟨fun h => absurd h (err_ne_of_head e _ (by decide)), ?_⟩, fun _ => rfl⟩
+          rintro ⟨_, _, cs', hc', hv', _⟩; cases hc'; rw [hv] at hv'; cases hv'
+        | none =>
+          by_cases hm : checkMisbehaviourMsg m = true
+          · have key : misbehaviourStore s now m v1 v2 = (freeze cs s, "frozen") := by
+              unfold misbehaviourStore; simp [hb, hst, hc, hv, hm]
+            rw [key]
+            exact ⟨⟨fun _ => ⟨hb, hst, cs, rfl, hv, hm⟩, fun _ => rfl⟩, fun h => absurd rfl h⟩
+          · have key : misbehaviourStore s now m v1 v2 = (s, "updated") := by
+              unfold misbehaviourStore; simp [hb, hst, hc, hv, hm]
+            rw [key]
+            refine ⟨⟨fun h => absurd h (by decide), ?_⟩, fun _ => rfl⟩
+            rintro ⟨_, _, _, _, _, h⟩; exact absurd h hm
+    · have key : misbehaviourStore s now m v1 v2 = (s, "err:client-not-active") := by unfold misbehaviourStore; simp [hb, hst]
+      rw [key]
+      exact ⟨⟨fun h => absurd h (by decide), fun h => absurd h.2.1 hst⟩, fun _ => rfl⟩
+  · have key : misbehaviourStore s now m v1 v2 = (s, "err:basic") := by unfold misbehaviourStore; simp [hb]
+    rw [key]
+    exact ⟨⟨fun h => absurd h (by decide), fun h => absurd h.1 hb⟩, fun _ => rfl⟩
 
 end IbcVerif.Tm
